@@ -9,7 +9,9 @@ EXPLANATION = (
     "reviewed 'inspect raises the same type' table), stage order forger -> hint -> discovery -> plain; get_ast returns a "
     "checked function definition or None and handles unparsable source; the user-driven retrieval cycle has a guard; "
     "attribute probes on foreign objects are guarded and declaration forgers convert a missing attribute to ValueError; the "
-    "Sphinx hook handles every vetted external raiser; every result passes through _upgrade_with_warning. It does NOT decide "
+    "Sphinx hook handles every vetted external raiser, binds callables only and keeps every operation on the documented object inside "
+    "its try (C07.R15); operations that hand resolved live values to getattr/extend/update/bind_partial are handled (C07.R14); every "
+    "result passes through _upgrade_with_warning. It does NOT decide "
     "'only narrows the def parameter list' nor totality over a corpus, nor implicit exception types.")
 ASSUMPTIONS = [
     "only explicit raise/assert statements and the vetted external-raiser table (ast.parse, eval, inspect.getsource, "
